@@ -11,7 +11,9 @@ Property theorems only (helper lemmas are in `Lemmas/Resample.lean`). The model
 `(x, y, z, t)` with `t = timestamp.toAbsTime()`; the stamp of an output is the C03 model (`stampOf`). All
 statements are over an arbitrary linearly ordered field (ℚ, ℝ): for every track, every list of instants, every step.
 Sections: T1–T4 (temporal / spatial), D1–D4 (degenerate requests), S1 (millisecond stamps), T3d (pauses),
-O1–O5 (callers).
+O1–O5 (callers), T4c / T4' (the clamp of the interpolated time, fix 20ed89f: a no-op in exact arithmetic; what it
+guarantees in ANY arithmetic), T2' / T3e / S2 (repeated timestamps: the interpolant in the original order of the fixes, legs travelled
+in no time, the calendar stamps of a spatially resampled track never decrease).
 
 `sampleT P t` / `sampleS P S s` (Lemmas) are the *specification* samples: the point of the leg
 `r = firstGE v V` — the number of abscissas `< v`, i.e. the first index with `v ≤ V[r]` — at fraction
@@ -100,17 +102,19 @@ theorem temporal_number_step (trunc : α → Int) (htr : TruncSpec trunc) (P : L
     linarith
 
 /-- T3a `spatial_samples`. `__resampleSpatial` with step `ds > 0` on a track whose 2D leg lengths are
-`legs ≥ 0` raises nothing and returns the first fix followed by the `N` specification samples at
+`legs ≥ 0` and whose stamps never decrease (so that the clamp of the fix commit 20ed89f — the interpolated time kept
+between the two stamps of its leg — changes nothing: `clampT_combine`) raises nothing and returns the first fix followed by the `N` specification samples at
 curvilinear abscissas `ds, 2ds, …, N·ds`, where `N = int(L/ds)` is the number of multiples of `ds` not
 exceeding the length `L`: `N·ds ≤ L < (N+1)·ds`. -/
 theorem spatial_samples (trunc : α → Int) (htr : TruncSpec trunc) (P : List (Fix α)) (legs : List α)
-    (hlen : legs.length + 1 = P.length) (hlegs : ∀ x ∈ legs, 0 ≤ x) (ds : α) (hds : 0 < ds) :
+    (hlen : legs.length + 1 = P.length) (hlegs : ∀ x ∈ legs, 0 ≤ x)
+    (hT : (P.map (·.t)).Pairwise (· ≤ ·)) (ds : α) (hds : 0 < ds) :
     ∃ N : Nat,
       resampleSpatialLegs trunc P legs ds
         = .ok (P[0]'(by omega) :: (List.range N).map
             (fun (j : Nat) => sampleS P (cum legs) (((j + 1 : Nat) : α) * ds))) ∧
       (N : α) * ds ≤ polyLen legs ∧ polyLen legs < ((N : α) + 1) * ds := by
-  refine ⟨_, resampleSpatialLegs_eq trunc htr P legs hlen hlegs ds hds, ?_⟩
+  refine ⟨_, resampleSpatialLegs_eq trunc htr P legs hlen hlegs hT ds hds, ?_⟩
   obtain ⟨hN1, hN2⟩ := htr (polyLen legs / ds) (div_nonneg (polyLen_nonneg legs hlegs) (le_of_lt hds))
   have hne : ds ≠ 0 := ne_of_gt hds
   constructor
@@ -147,7 +151,7 @@ theorem spatial_time_monotone (trunc : α → Int) (htr : TruncSpec trunc) (P : 
     (legs : List α) (hlen : legs.length + 1 = P.length) (hlegs : ∀ x ∈ legs, 0 ≤ x)
     (hT : (P.map (·.t)).Pairwise (· ≤ ·)) (ds : α) (hds : 0 < ds) :
     ∃ out, resampleSpatialLegs trunc P legs ds = .ok out ∧ (out.map (·.t)).Pairwise (· ≤ ·) := by
-  obtain ⟨N, heq, hN, _⟩ := spatial_samples trunc htr P legs hlen hlegs ds hds
+  obtain ⟨N, heq, hN, _⟩ := spatial_samples trunc htr P legs hlen hlegs hT ds hds
   refine ⟨_, heq, ?_⟩
   have hSlen := cum_length legs
   have hS0 : (cum legs)[0]'(by omega) = 0 := cumFrom_head 0 legs
@@ -622,6 +626,194 @@ theorem collection_floordiv (sqrt : α → α) (trunc : α → Int) (g : α)
     rw [e0, e1]
     rfl
 
+/-! ### repeated timestamps (stamps that never decrease): the interpolant in the ORIGINAL order of the fixes -/
+
+/-- T2' `temporal_repeated_stamps`. T2 on a track whose stamps never decrease but may REPEAT (a receiver logging faster
+than the resolution of its clock, a doubled record), whatever its length. The sample returned for an instant
+`t ∈ (tini, tfin]` is interpolated between two fixes that are CONSECUTIVE IN THE ORDER OF THE TRACK, `P[r−1]` and `P[r]`,
+with `T[r−1] < t ≤ T[r]` — never on a leg of zero duration (`0 < T[r] − T[r−1]`), and `r` is the only such leg;
+(a) every fix before `P[r]` is stamped `< t`: the leg ENDS at the FIRST fix stamped at or after `t`;
+(b) every fix from `P[r]` on is stamped `> T[r−1]`: the leg STARTS at the LAST fix carrying the stamp `T[r−1]`
+(of several fixes sharing a stamp, the last one is the start of the next leg and the first one the end of the previous
+leg: the track is never re-ordered);
+(c) an instant that IS a stamp of the track (repeated or not) is answered with the position of the first fix carrying it. -/
+theorem temporal_repeated_stamps (P : List (Fix α)) (hn : 0 < P.length)
+    (hT : (P.map (·.t)).Pairwise (· ≤ ·)) (t : α) (h1 : (P[0]).t < t) (h2 : t ≤ (P[P.length - 1]).t) :
+    ∃ (r : Nat) (_ : 1 ≤ r) (hr : r < P.length),
+      (P[r - 1]'(by omega)).t < t ∧ t ≤ P[r].t ∧ 0 < P[r].t - (P[r - 1]'(by omega)).t ∧
+      sampleT P t = lerpFix (P[r - 1]'(by omega)) P[r]
+        ((t - (P[r - 1]'(by omega)).t) / (P[r].t - (P[r - 1]'(by omega)).t)) t ∧
+      (∀ j (hj : j < r), (P[j]'(by omega)).t < t) ∧
+      (∀ j (_ : r ≤ j) (hj : j < P.length), (P[r - 1]'(by omega)).t < P[j].t) ∧
+      (∀ k, 1 ≤ k → (hk : k < P.length) → (P[k - 1]'(by omega)).t < t → t ≤ P[k].t → k = r) ∧
+      (t = P[r].t → sampleT P t = ⟨P[r].x, P[r].y, P[r].z, t⟩) := by
+  have hlen : 0 < (P.map (·.t)).length := by simpa using hn
+  obtain ⟨hr1, hrlt, hb1, hb2⟩ := firstGE_bracket (P.map (·.t)) t hlen (by simpa using h1) (by simpa using h2)
+  have hrP : firstGE t (P.map (·.t)) < P.length := by simpa using hrlt
+  simp only [List.getElem_map] at hb1 hb2
+  have hsmp : sampleT P t = lerpFix (P[firstGE t (P.map (·.t)) - 1]'(by omega)) P[firstGE t (P.map (·.t))]
+      ((t - (P[firstGE t (P.map (·.t)) - 1]'(by omega)).t)
+        / (P[firstGE t (P.map (·.t))].t - (P[firstGE t (P.map (·.t)) - 1]'(by omega)).t)) t := by
+    simp only [sampleT, fixAt_eq P _ hrP, fixAt_eq P (firstGE t (P.map (·.t)) - 1) (by omega)]
+  refine ⟨firstGE t (P.map (·.t)), hr1, hrP, hb1, hb2, by linarith, hsmp, ?_, ?_, ?_, ?_⟩
+  · intro j hj
+    have := lt_of_lt_firstGE t (P.map (·.t)) j hj (by simp; omega)
+    simpa using this
+  · intro j hrj hj
+    exact lt_of_lt_of_le (lt_of_lt_of_le hb1 hb2) (times_mono P hT _ j hrj hj)
+  · intro k hk1 hk hlo hhi
+    exact (firstGE_unique (P.map (·.t)) hT t k hk1 (by simpa using hk) (by simpa using hlo)
+      (by simpa using hhi)).symm
+  · intro ht
+    rw [hsmp]
+    have hne : P[firstGE t (P.map (·.t))].t - (P[firstGE t (P.map (·.t)) - 1]'(by omega)).t ≠ 0 :=
+      ne_of_gt (by linarith)
+    have hf : (t - (P[firstGE t (P.map (·.t)) - 1]'(by omega)).t)
+        / (P[firstGE t (P.map (·.t))].t - (P[firstGE t (P.map (·.t)) - 1]'(by omega)).t) = 1 := by
+      rw [div_eq_one_iff_eq hne]; linarith
+    rw [hf]
+    simp [lerpFix]
+
+/-- T3e `spatial_equal_stamp_leg`. Spatial mode, a leg of positive 2D length whose two fixes carry the SAME timestamp
+(the leg is travelled in no time): the sample taken on it at abscissa `s` is stamped with exactly that timestamp —
+`wbwd·t + wfwd·t = t` in exact arithmetic. (In floats `wbwd + wfwd` is not exactly 1 and the weighted mean can be one ulp
+below `t`, which `readUnixTime` truncated to the millisecond before — former finding `spatial-equal-stamp-leg-ms-decrease`,
+repaired by the fix commit 20ed89f: the clamp returns `t` whatever the arithmetic, see T4'.) -/
+theorem spatial_equal_stamp_leg (P : List (Fix α)) (legs : List α) (hlen : legs.length + 1 = P.length)
+    (hlegs : ∀ x ∈ legs, 0 ≤ x) (s : α) (h0 : 0 < s) (h1 : s ≤ polyLen legs) :
+    ∃ (r : Nat) (_ : 1 ≤ r) (hr : r < P.length),
+      (cum legs).getD (r - 1) 0 < s ∧ s ≤ (cum legs).getD r 0 ∧
+      ((P[r - 1]'(by omega)).t = P[r].t → (sampleS P (cum legs) s).t = P[r].t) := by
+  obtain ⟨r, hr1, hr, hlo, hhi, _, _, _, _, _, hsmp, _⟩ := sampleS_on_leg P legs hlen hlegs s h0 h1
+  refine ⟨r, hr1, hr, hlo, hhi, ?_⟩
+  intro heq
+  rw [hsmp]
+  simp [lerpFix, heq]
+
+/-- contract of `⌊1000·t⌋` (the millisecond an instant falls in) -/
+def MsFloor (ms : α → Int) : Prop := ∀ t : α, ((ms t : Int) : α) ≤ t * 1000 ∧ t * 1000 < ((ms t : Int) : α) + 1
+
+theorem MsFloor.mono {ms : α → Int} (h : MsFloor ms) {a b : α} (hab : a ≤ b) : ms a ≤ ms b := by
+  by_contra hc
+  have hlt : ms b + 1 ≤ ms a := by omega
+  have h1 : ((ms b : Int) : α) + 1 ≤ ((ms a : Int) : α) := by exact_mod_cast hlt
+  have ha := (h a).1
+  have hb := (h b).2
+  have : a * 1000 ≤ b * 1000 := by nlinarith
+  linarith
+
+theorem MsFloor.nonneg {ms : α → Int} (h : MsFloor ms) {a : α} (ha : 0 ≤ a) : 0 ≤ ms a := by
+  by_contra hc
+  have hlt : ms a + 1 ≤ 0 := by omega
+  have h1 : ((ms a : Int) : α) + 1 ≤ 0 := by exact_mod_cast hlt
+  have := (h a).2
+  nlinarith
+
+/-- S2 `spatial_stamps_monotone`. "…so that timestamps never decrease", on the calendar stamps the output observations
+actually carry: spatial resampling (step `ds > 0`) of a track whose stamps never decrease (repeats allowed) and are not
+before 1970 returns observations stamped `ObsTime.readUnixTime(t)` = `readUnixMs m` (C03 model) with `m = ⌊1000·t⌋` the
+millisecond of the interpolated time `t`; these whole milliseconds never decrease along the output, and every such
+stamp is a well-formed calendar stamp reading back (`toAbsTime`) as `m` ms exactly — so the stamps compared as instants
+never decrease. (Exact arithmetic; T4' is what remains true of the times in any arithmetic.) -/
+theorem spatial_stamps_monotone (trunc : α → Int) (htr : TruncSpec trunc) (ms : α → Int) (hms : MsFloor ms)
+    (P : List (Fix α)) (legs : List α) (hlen : legs.length + 1 = P.length) (hlegs : ∀ x ∈ legs, 0 ≤ x)
+    (hT : (P.map (·.t)).Pairwise (· ≤ ·)) (h0 : (0 : α) ≤ (P[0]'(by omega)).t) (ds : α) (hds : 0 < ds) :
+    ∃ out, resampleSpatialLegs trunc P legs ds = .ok out ∧
+      stamps ms out = (out.map (fun p => (ms p.t).toNat)).map (fun m => some (TV.ObsTime.readUnixMs m)) ∧
+      (out.map (fun p => (ms p.t).toNat)).Pairwise (· ≤ ·) ∧
+      (∀ p ∈ out, (((ms p.t).toNat : Nat) : α) ≤ p.t * 1000 ∧ p.t * 1000 < (((ms p.t).toNat : Nat) : α) + 1) ∧
+      (∀ m : Nat, TV.ObsTime.WFs (TV.ObsTime.readUnixMs m) ∧ TV.ObsTime.toAbsMs (TV.ObsTime.readUnixMs m) = m) := by
+  obtain ⟨N, heq, _, _⟩ := spatial_samples trunc htr P legs hlen hlegs hT ds hds
+  obtain ⟨out, hout, hmono⟩ := spatial_time_monotone trunc htr P legs hlen hlegs hT ds hds
+  have hfirst : ∀ p ∈ out, (P[0]'(by omega)).t ≤ p.t := by
+    rw [heq] at hout
+    cases hout
+    intro p hp
+    rcases List.mem_cons.mp hp with h | h
+    · rw [h]
+    · simp only [List.map_cons, List.pairwise_cons] at hmono
+      exact hmono.1 p.t (List.mem_map.mpr ⟨p, h, rfl⟩)
+  have hnn : ∀ p ∈ out, 0 ≤ ms p.t := fun p hp => hms.nonneg (le_trans h0 (hfirst p hp))
+  refine ⟨out, hout, ?_, ?_, ?_, ?_⟩
+  · simp only [stamps, List.map_map]
+    apply List.map_congr_left
+    intro p hp
+    have := hnn p hp
+    simp only [Function.comp, stampOf]
+    rw [if_neg (by omega)]
+  · rw [List.pairwise_map] at hmono ⊢
+    refine hmono.imp ?_
+    intro a b hab
+    exact Int.toNat_le_toNat (hms.mono hab)
+  · intro p hp
+    have h := hnn p hp
+    have hc : (((ms p.t).toNat : Nat) : α) = ((ms p.t : Int) : α) := by
+      have := Int.toNat_of_nonneg h
+      exact_mod_cast congrArg (fun z : Int => (z : α)) this
+    rw [hc]
+    exact hms p.t
+  · intro m
+    have h := TV.ObsTime.readUnix_spec (m / 1000)
+    refine ⟨⟨h.1, Nat.mod_lt _ (by omega)⟩, ?_⟩
+    unfold TV.ObsTime.toAbsMs TV.ObsTime.readUnixMs
+    simp only [h.2]
+    omega
+
+/-! ### the clamp of the interpolated time (fix commit 20ed89f) -/
+
+/-- T4c `spatial_clamp_exact`. In exact arithmetic the clamp `T = min(max(T, t_bwd), t_fwd)` added to `__resampleSpatial`
+by the fix commit 20ed89f is a no-op: for a sample at abscissa `v` of a leg `vb < v ≤ vf` whose stamps satisfy
+`tb ≤ tf`, the weighted mean `wbwd·tb + wfwd·tf` already lies in `[tb, tf]` and the clamped value is the linear
+interpolation `tb + ((v − vb)/(vf − vb))·(tf − tb)` — so T3a, T3, T3d, T3e, T4, S2 describe the repaired code. -/
+theorem spatial_clamp_exact (vb vf v tb tf : α) (h1 : vb < v) (h2 : v ≤ vf) (ht : tb ≤ tf) :
+    clampT ((vf - v) / (vf - vb) * tb + (v - vb) / (vf - vb) * tf) tb tf
+      = tb + (v - vb) / (vf - vb) * (tf - tb) ∧
+    tb ≤ tb + (v - vb) / (vf - vb) * (tf - tb) ∧ tb + (v - vb) / (vf - vb) * (tf - tb) ≤ tf := by
+  obtain ⟨f0, f1⟩ := frac_bounds vb vf v h1 h2
+  exact ⟨clampT_combine vb vf v tb tf h1 h2 ht, lerp_bounds tb tf _ ht (le_of_lt f0) f1⟩
+
+/-- T4' `spatial_time_clamped`. What the clamp guarantees WITHOUT exact arithmetic. `β` is any linearly ordered type
+with four ARBITRARY operations `+ − × ÷` (no law is assumed: they may round as IEEE doubles do; the doubles other than
+NaN are linearly ordered). On a track whose stamps never decrease (repeats allowed), whenever the loop of
+`__resampleSpatial` returns, there is for every output `out[i]` the leg `legs[i]` (the value of `running_id`) such that
+(a) the legs never go backwards;
+(b) the time handed to `readUnixTime` lies between the stamps of the two fixes of its leg, `P[r−1].t ≤ t ≤ P[r].t`;
+(c) hence two outputs on different legs are in chronological order, `out[i].t ≤ out[j].t`;
+(d) an output on a leg travelled in no time (both fixes stamped `t`) is stamped exactly `t`, so two outputs of such a leg
+are in order too (the repaired defect: they were `t` and `t − 1 ulp`);
+(e) no output is earlier than the first fix, which `__resampleSpatial` puts in front.
+The only pairs NOT ordered by the clamp alone are two samples of one leg of positive duration: their order is that of the
+two weighted means, which needs the arithmetic (T4, exact). -/
+theorem spatial_time_clamped {β : Type} [LinearOrder β] [Add β] [Sub β] [Mul β] [Div β] [OfNat β 0] [NatCast β]
+    (P : List (Fix β)) (hT : (P.map (·.t)).Pairwise (· ≤ ·)) (S : List β) (sini sfin ds : β) (n k rid : Nat)
+    (out : List (Fix β)) (h : spatialLoop P S sini sfin ds n k rid = .ok out) :
+    ∃ (legs : List Nat) (hl : legs.length = out.length), legs.Pairwise (· ≤ ·) ∧
+      (∀ i (hi : i < out.length), ∃ pb pf, P[legs[i] - 1]? = some pb ∧ P[legs[i]]? = some pf ∧
+        pb.t ≤ out[i].t ∧ out[i].t ≤ pf.t) ∧
+      (∀ i j (_ : i < j) (hj : j < out.length), legs[i]'(by omega) < legs[j] → (out[i]'(by omega)).t ≤ out[j].t) ∧
+      (∀ i (hi : i < out.length) pb pf, P[legs[i] - 1]? = some pb → P[legs[i]]? = some pf → pb.t = pf.t →
+        out[i].t = pf.t) ∧
+      (∀ o ∈ out, ∀ p0, P[0]? = some p0 → p0.t ≤ o.t) := by
+  obtain ⟨legs, hF, _, hpw⟩ := spatialLoop_any P hT S sini sfin ds n k rid out h
+  have hl : legs.length = out.length := hF.length_eq
+  have hget : ∀ i (hi : i < out.length), OnLeg P (legs[i]'(by omega)) out[i] := by
+    intro i hi
+    have := (List.forall₂_iff_get.mp hF).2 i (by omega) hi
+    simpa using this
+  refine ⟨legs, hl, hpw, fun i hi => hget i hi, ?_, ?_, ?_⟩
+  · intro i j hij hj hlt
+    exact onLeg_le P hT (hget i (by omega)) (hget j hj) hlt
+  · intro i hi pb pf e1 e2 heq
+    refine onLeg_eq P (hget i hi) ?_ pf e2
+    intro pb' pf' e1' e2'
+    rw [e1] at e1'; rw [e2] at e2'
+    cases e1'; cases e2'
+    exact heq
+  · intro o ho p0 hp0
+    obtain ⟨i, hi, rfl⟩ := List.getElem_of_mem ho
+    obtain ⟨pb, _, e1, _, c1, _⟩ := hget i hi
+    exact le_trans (times_le P hT hp0 e1 (Nat.zero_le _)) c1
+
 /-! ### non-vacuity -/
 
 /-- the contract of `int()` is met by the floor function on ℚ (what the driver uses on non-negative values) -/
@@ -734,5 +926,35 @@ example : (collFloordiv (fun x : ℚ => x) (fun x : ℚ => x.floor) 1 [(syncA, [
     (fun l => l.map (fun r => (r.1.map (·.t), r.2))) = some [([5, 12, 20], []), ([12, 20, 47], [])] := by decide +kernel
 example : collFloordiv (fun x : ℚ => x) (fun x : ℚ => x.floor) 1 [(syncA, [])] syncB
     = .ok [([⟨25/12, 0, 0, 5⟩, ⟨5, 0, 0, 12⟩, ⟨5 + 24/11, 0, 0, 20⟩], [])] := by decide +kernel
+
+/-! #### repeated timestamps -/
+
+/-- fixes 1 and 2 share the stamp 20 s at different positions (3,4) and (6,0); legs 5, 5, 5 -/
+def demoRep : List (Fix ℚ) := [⟨0, 0, 0, 10⟩, ⟨3, 4, 1, 20⟩, ⟨6, 0, 2, 20⟩, ⟨9, 4, 3, 30⟩]
+
+example : (demoRep.map (·.t)).Pairwise (· ≤ ·) := by decide +kernel
+/-- 15 s lies between fixes 0 and 1, 25 s between fixes 2 and 3 (the LAST fix stamped 20 s starts that leg); the repeated
+stamp itself is answered with the FIRST fix carrying it -/
+example : resampleTemporal (fun x : ℚ => x.floor) demoRep (.instants [15, 20, 25])
+    = .ok [⟨3/2, 2, 1/2, 15⟩, ⟨3, 4, 1, 20⟩, ⟨15/2, 2, 5/2, 25⟩] := by decide +kernel
+/-- a long track: 18 fixes of a 2 Hz receiver with a 1 s clock (fix `i` at x = 10·i, stamped `⌊i/2⌋` s); the instant 3.5 s
+lies between fix 7 (the last one stamped 3 s) and fix 8 (the first one stamped 4 s) -/
+def demo2Hz : List (Fix ℚ) := (List.range 18).map (fun (i : Nat) => ⟨10 * (i : ℚ), 0, 0, ((Nat.div i 2 : Nat) : ℚ)⟩)
+example : (demo2Hz.map (·.t)).Pairwise (· ≤ ·) := by decide +kernel
+example : resampleTemporal (fun x : ℚ => x.floor) demo2Hz (.instants [7/2, 4, 1/2])
+    = .ok [⟨75, 0, 0, 7/2⟩, ⟨80, 0, 0, 4⟩, ⟨15, 0, 0, 1/2⟩] := by decide +kernel
+/-- spatial mode: the sample at abscissa 6 lies on the leg travelled in no time (20 s → 20 s) and is stamped 20 s -/
+example : sampleS demoRep (cum [5, 5, 5]) 6 = ⟨18/5, 16/5, 6/5, 20⟩ := by decide +kernel
+/-- the contract of `⌊1000·t⌋` is met on ℚ -/
+example : MsFloor (fun t : ℚ => (t * 1000).floor) := fun _ => ⟨Int.floor_le _, Int.lt_floor_add_one _⟩
+/-- the stamps of `demoRep` resampled every 2 m: 10 s, then 14, 18, 20, 20 (both on the no-time leg), 20, 24, 28 s -/
+example : (resampleSpatialLegs (fun x : ℚ => x.floor) demoRep [5, 5, 5] 2).toOption.map
+      (fun out => out.map (fun p => ((p.t * 1000).floor).toNat))
+    = some [10000, 14000, 18000, 20000, 20000, 20000, 24000, 28000] := by decide +kernel
+
+/-! #### the clamp -/
+/-- the clamp acts on a value outside the two stamps (what a rounded weighted mean may be) and leaves one inside alone -/
+example : clampT (77/2 - 1/1000000 : ℚ) (77/2) (77/2) = 77/2 := by decide +kernel
+example : clampT (12 : ℚ) 10 20 = 12 ∧ clampT (9 : ℚ) 10 20 = 10 ∧ clampT (21 : ℚ) 10 20 = 20 := by decide +kernel
 
 end TV.C05
